@@ -47,10 +47,10 @@ type Sim struct {
 
 // C canonicalises a value of the current (possibly inlined) frame.
 func (s *Sim) C(v ssa.Value) ssa.Value {
-	if s.cur == nil {
-		return v
+	if s.cur != nil {
+		v = s.cur.Canon(v)
 	}
-	return s.cur.Canon(v)
+	return structResolver{s.vals}.resolveField(s.cur, v)
 }
 
 func (s *Sim) Run() []string {
